@@ -64,11 +64,11 @@ Proof. exists (fst witness_carbon_gate), (snd witness_carbon_gate). vm_compute. 
 (* non-vacuity: a program on four-qubit NV hardware with the transpiler that stays in
    budget and outside the recorded classes, with a flushed qubit relocated by a
    measurement, a two-pair keep, a carbon-carbon gate while ID 0 is occupied, a
-   sequential keep whose routine frees, Bell states other than Phi+, a two-pair EPR context, a
+   keep whose post routine frees (not sequential), Bell states other than Phi+, a two-pair EPR context, a
    context that keeps its pair, three flushes; the hypotheses hold and so does the conclusion, by computation *)
 Definition example_prog : list op :=
-  [NewQubit; Flush; NewQubit; MeasureDestructive 1; EprKeep 2 true [true; true]; Gate2 0 2; Flush; Free 3;
-   EprKeepSeq 2 true [true; false] (BConsume false); Free 2; EprContext 2 false (BConsume true);
+  [NewQubit; Flush; NewQubit; MeasureDestructive 1; EprKeep 2 true false [true; true]; Gate2 0 2; Flush; Free 3;
+   EprKeepSeq 1 true false [true] (BConsume false); Free 2; EprContext 2 false (BConsume true);
    EprContext 1 true BKeep; Flush].
 Example C09_nonvacuous :
   let k := mkCfg 4 true true in
